@@ -78,7 +78,7 @@ Qed.
 
 (* ---- the invariant of the whole pipeline ---------------------------------------------------------------- *)
 Record PInv (s : pstate) : Prop := mkPInv {
-  pi_dist : Inv (p_dist s);
+  pi_dist : Inv 0 (p_dist s);
   pi_rate : 0 <= p_rate s < DEC;
   pi_bal : nonneg (p_bal s);
   pi_dao : 0 <= p_dao s
@@ -140,7 +140,7 @@ Proof.
   assert (SS : ssub (zget DIST b4) (take_rate_fee s (zget DIST b4)) = zget DIST b4 - take_rate_fee s (zget DIST b4)) by (unfold ssub; lia).
   rewrite SS in H5.
   assert (F0 : 0 <= zget DIST b4 - take_rate_fee s (zget DIST b4)) by lia.
-  pose proof (new_epoch_spec _ _ _ _ _ _ (pi_dist s I) F0 H5) as SP. cbn zeta in SP. destruct SP as (_ & _ & HB & _).
+  pose proof (new_epoch_spec _ _ _ _ _ _ _ (pi_dist s I) F0 H5) as SP. cbn zeta in SP. destruct SP as (_ & _ & HB & _).
   exists b3, b4. cbn zeta. splits; auto; try lia.
   - rewrite (aggregate_dist _ _ _ H4), (aggregate_dist _ _ _ H3). unfold bb2, bb1. rewrite !credit_get. unfold sum_dist, sum_asset. lia.
   - intros C L. unfold take_rate_fee. rewrite C. apply Z.ltb_lt in L. rewrite L. reflexivity.
@@ -188,7 +188,7 @@ Proof.
   intros I W H. destruct (pipeline_new_epoch _ _ _ _ _ I W H) as (b3 & b4 & _ & _ & _ & R). cbn zeta in R.
   destruct R as (_ & FB & _ & _ & _ & _ & _ & HN & HDB & _).
   assert (F0 : 0 <= zget DIST b4 - take_rate_fee s (zget DIST b4)) by lia.
-  pose proof (new_epoch_spec _ _ _ _ _ _ (pi_dist s I) F0 HN) as SP. cbn zeta in SP.
+  pose proof (new_epoch_spec _ _ _ _ _ _ _ (pi_dist s I) F0 HN) as SP. cbn zeta in SP.
   destruct SP as (_ & _ & _ & ne & _ & _ & _ & Full & NotFull).
   cbn zeta. rewrite HDB. replace (d_bal (p_dist s) + (zget DIST b4 - take_rate_fee s (zget DIST b4)) - d_bal (p_dist s))
     with (zget DIST b4 - take_rate_fee s (zget DIST b4)) by lia.
